@@ -36,30 +36,29 @@ pub fn n_c14_value_order() {
     let a = replay_value();
     let b = replay_value();
     let c = replay_value();
-    let (ab, ba, bc, ac, aa, same);
+    let vals = [a, b, c];
+    let mut attrs: std::vec::Vec<crate::Attribute> = std::vec::Vec::new();
     if with_attr {
-        let mut names = std::vec::Vec::new();
-        for _ in 0..3 {
+        for v in vals.iter() {
             let i = vk::any_u16();
             assert!(i < 101, "VK_REPLAY_SHAPE");
-            names.push(unsafe { core::mem::transmute::<u16, crate::AttributeName>(i) });
-        }
-        let x = crate::Attribute { attrname: names[0], content: a };
-        let y = crate::Attribute { attrname: names[1], content: b };
-        let z = crate::Attribute { attrname: names[2], content: c };
-        ab = x.cmp(&y); ba = y.cmp(&x); bc = y.cmp(&z); ac = x.cmp(&z); aa = x.cmp(&x); same = x == y;
-    } else {
-        ab = a.cmp(&b); ba = b.cmp(&a); bc = b.cmp(&c); ac = a.cmp(&c); aa = a.cmp(&a); same = a == b;
-    }
-    vk_check!(aa == Equal, "cmp(a, a) != Equal");
-    vk_check!(ba == ab.reverse(), "comparison is not antisymmetric");
-    if ab != Greater && bc != Greater {
-        vk_check!(ac != Greater, "comparison is not transitive");
-        if ab == Less || bc == Less {
-            vk_check!(ac == Less, "comparison is not transitive");
+            attrs.push(crate::Attribute { attrname: unsafe { core::mem::transmute::<u16, crate::AttributeName>(i) }, content: v.clone() });
         }
     }
-    vk_check!((ab == Equal) == same, "cmp == Equal is not the same as ==");
+    let cmp = |x: usize, y: usize| if with_attr { attrs[x].cmp(&attrs[y]) } else { vals[x].cmp(&vals[y]) };
+    let eq = |x: usize, y: usize| if with_attr { attrs[x] == attrs[y] } else { vals[x] == vals[y] };
+    vk_check!(cmp(0, 0) == Equal, "cmp(a, a) != Equal");
+    for (x, y, z) in [(0, 1, 2), (0, 2, 1), (1, 0, 2), (1, 2, 0), (2, 0, 1), (2, 1, 0)] {
+        let (xy, yx, yz, xz) = (cmp(x, y), cmp(y, x), cmp(y, z), cmp(x, z));
+        vk_check!(yx == xy.reverse(), "comparison is not antisymmetric");
+        if xy != Greater && yz != Greater {
+            vk_check!(xz != Greater, "comparison is not transitive");
+            if xy == Less || yz == Less {
+                vk_check!(xz == Less, "comparison is not transitive");
+            }
+        }
+    }
+    vk_check!((cmp(0, 1) == Equal) == eq(0, 1), "cmp == Equal is not the same as ==");
 }
 
 // C20: independent reading of the AUTOSAR integer forms 0 | [+-]?[1-9][0-9]* | 0[xX]hex+ | 0[bB][01]+ | 0[0-7]+
